@@ -93,10 +93,17 @@ def ob_frozen(ctx: Ctx) -> Outcome:
         return Outcome.undecided("ast-shape", str(e))
     src = ast.unparse(fn)
     wits = []
-    m = re.search(r"m = re\.fullmatch\('([^']*)', standard_ref\)", src)
-    if not m:
-        return Outcome.undecided("ast-shape", "frozen reference is no longer gated by `m = re.fullmatch(<literal>, standard_ref)`")
-    pat = m.group(1).encode().decode("unicode_escape")
+    m = re.search(r"(\w+) = re\.fullmatch\('([^']*)', standard_ref\)", src)
+    gate_var = None
+    if m:
+        gate_var, pat = m.group(1), m.group(2).encode().decode("unicode_escape")
+    else:
+        # the same gate with the pattern hoisted into a compiled module constant: `<var> = NAME.fullmatch(standard_ref)`
+        m2 = re.search(r"(\w+) = (\w+)\.fullmatch\(standard_ref\)", src)
+        rxc = extract.module_consts(HYD).get(m2.group(2)) if m2 else None
+        if not (m2 and isinstance(rxc, extract.Rx) and rxc.flags == 0):
+            return Outcome.undecided("ast-shape", "frozen reference is no longer gated by a fullmatch of a literal / compiled-constant pattern on standard_ref")
+        gate_var, pat = m2.group(1), rxc.pattern
     try:
         lang = A.dfa_regex(pat, 0, None, al)
     except Exception as e:  # noqa: BLE001
@@ -110,7 +117,7 @@ def ob_frozen(ctx: Ctx) -> Outcome:
         failed, text = C19_b.replay_frozen(s)
         wits.append(Witness(what=f"frozen reference {s!r} is accepted by the gate but is not 'frozen@sha256:' + 64 hex digits; {text}", key=s, input=s, replay={"runner": "props.C19_b:replay_frozen", "args": {"ref": s}}, confirmed=failed))
     need = [
-        ("digest = m.group(1).lower()", "the digest is the matched group"),
+        (f"digest = {gate_var}.group(1).lower()", "the digest is the matched group"),
         ("cached_path = cache_dir / f'{digest[:16]}.oct.md'", "the cache file name is built from the digest alone"),
         ("actual_hash = compute_vocabulary_hash(cached_path)", "the file's bytes are hashed"),
         ("expected_hash = f'sha256:{digest}'", "the expected hash is the full digest"),
@@ -118,7 +125,7 @@ def ob_frozen(ctx: Ctx) -> Outcome:
     for text, why in need:
         if text not in src:
             wits.append(Witness(what=f"resolve_hermetic_standard: `{text[:60]}` not found ({why})", key=text[:30], input=text))
-    for test, why in (("m is None", "a reference that does not match raises"), ("actual_hash != expected_hash", "a different hash raises"), ("not cached_path.exists()", "a missing cache file raises")):
+    for test, why in ((f"{gate_var} is None", "a reference that does not match raises"), ("actual_hash != expected_hash", "a different hash raises"), ("not cached_path.exists()", "a missing cache file raises")):
         if not any(isinstance(n, ast.If) and ast.unparse(n.test) == test and isinstance(n.body[-1], ast.Raise) and not n.orelse for n in ast.walk(fn)):
             wits.append(Witness(what=f"resolve_hermetic_standard: no `if {test}: raise ...` ({why})", key=test, input=test))
     # `return cached_path` comes after the hash comparison in the same block
@@ -193,7 +200,10 @@ def validator_structure(module: str, qualname: str, allowed: str) -> tuple[list[
     if walk is None:
         probs.append("no per-component walk `for part in absolute.parts[1:]`")
     else:
-        b = walk.body
+        b = list(walk.body)
+        # guard-clause spelling: `if not current.is_symlink(): continue` followed by the handling statements
+        if len(b) >= 3 and isinstance(b[1], ast.If) and ast.unparse(b[1].test) == "not current.is_symlink()" and [ast.unparse(x) for x in b[1].body] == ["continue"] and not b[1].orelse:
+            b = [b[0], ast.If(test=ast.parse("current.is_symlink()", mode="eval").body, body=b[2:], orelse=[])]
         if not (len(b) == 2 and ast.unparse(b[0]) == "current = current / part" and isinstance(b[1], ast.If)):
             probs.append("the walk body is not `current = current / part; if <symlink test>: ...`")
         else:
